@@ -6,9 +6,12 @@ from gen import mibgen
 from props import codegen_common as cg
 
 LEVEL = 'proof'
-MODULES = ['Pysmi.Props.C01', 'Pysmi.Props.C03']
-LAKE_TARGETS = ['Pysmi.Props.C01', 'Pysmi.Props.C03']
+MODULES = ['Pysmi.Props.C01', 'Pysmi.Props.C03', 'Pysmi.Pins.SkelC01']
+LAKE_TARGETS = ['Pysmi.Props.C01', 'Pysmi.Props.C03', 'Pysmi.Pins.SkelC01']
 THEOREMS = [
+    'Pysmi.Pins.SkelC01.pin_symtableGenCode',
+    'Pysmi.Pins.SkelC01.pin_regPostponed',
+    'Pysmi.Pins.SkelC01.pin_genNumericOid',
     'Pysmi.Oid.C01_denotes_functional',
     'Pysmi.Oid.C01_numericOid_sound',
     'Pysmi.Oid.C01_numericOid_complete',
